@@ -248,6 +248,8 @@ pub fn run(ctx: &Ctx, rec: &mut Rec) {
             }
         }
     });
+    // (iv) object-lifecycle programs: in-place forms on persistent objects of every provenance
+    par(rec, |w, n, rec| crate::life::programs(ctx, rec, P, crate::life::DENOTE, w, n, ctx.scale(1500, 30000), &zoo));
     rec.check_coverage();
 }
 
